@@ -23,7 +23,7 @@ REQUIRED_COUNTERS = ["histories", "calls_checked", "ledger_checks", "input_hash_
 ANCHOR_FUNCS = ["Data.get_scores", "Data._get_score"]
 TIMEOUT = {"quick": 1500, "thorough": 7200}
 
-KINDS = ["plain", "obsrange", "clim", "pit", "ens", "nccdf"]
+KINDS = ["plain", "obsrange", "clim", "pit", "ens", "nccdf", "thin"]
 
 
 def plan(tier, seed):
@@ -37,7 +37,21 @@ def plan(tier, seed):
     return shards
 
 
-def menu(kind):
+def thin_axis(ds):
+    """the one dimension of a 'thin' dataset that has more than one entry"""
+    i0 = ds["inputs"][0]
+    return "time" if len(i0["times"]) > 1 else ("leadtime" if len(i0["leadtimes"]) > 1 else "location")
+
+
+def menu(kind, ds=None):
+    if kind == "thin":
+        # a single station and lead time (or a single run at one lead time over a network, ...): the data block is a vector
+        ax = thin_axis(ds)
+        return [(["obs", "fcst"], 0, "all", None), (["obs"], 0, "all", None), (["fcst"], 0, "all", None),
+                (["obs", "fcst"], 0, "no", 0), (["obs"], 0, "no", 0), (["obs", "fcst"], 1, ax, 0),
+                (["obs"], 1, ax, 1), (["obs", "fcst"], 0, ax, 0), (["fcst"], 1, ax, 0),
+                (["obs", "fcst"], 1, "all", None), (["fcst"], 1, "no", 0), (["obs"], 0, ax, 1),
+                (["fcst"], 0, ax, 1), (["obs"], 1, "all", None), (["obs", "fcst"], 1, ax, 1), (["fcst"], 1, "all", None)]
     m = [(["obs", "fcst"], 0, "all", None), (["obs"], 0, "all", None), (["fcst"], 0, "all", None),
          (["obs", "fcst"], 0, "no", 0), (["obs"], 0, "no", 0), (["obs", "fcst"], 1, "leadtime", 0),
          (["obs"], 1, "leadtime", 1), (["obs", "fcst"], 0, "time", 0), (["fcst"], 1, "location", 0),
@@ -80,6 +94,24 @@ def menu(kind):
 
 
 def make_ds(rng, kind):
+    if kind == "thin":
+        long_dim = rng.choice(["time", "leadtime", "location"])
+        for _ in range(50):
+            ds = gen.make_dataset(rng, n_inputs=2, fmt=rng.choice(["text", "nc"]), miss=0.25, sparse=0.0, max_t=6, max_l=5, max_s=5, same_dims=True)
+            i0 = ds["inputs"][0]
+            if len(i0["times"]) >= 3 and len(i0["leadtimes"]) >= 3 and len(i0["locs"]) >= 3:
+                break
+        t0, l0, s0 = i0["times"][0], i0["leadtimes"][0], i0["locs"][0]
+        for inp in ds["inputs"]:
+            if long_dim != "time":
+                inp["times"] = [t0]
+            if long_dim != "leadtime":
+                inp["leadtimes"] = [l0]
+            if long_dim != "location":
+                inp["locs"] = [s0]
+            keep = set(gen.ck(t, l, s[0]) for t in inp["times"] for l in inp["leadtimes"] for s in inp["locs"])
+            inp["cells"] = {k: c for k, c in inp["cells"].items() if k in keep}
+        return ds
     if kind == "nccdf":
         from vmon.props import c02
         ds = gen.make_dataset(rng, n_inputs=2, fmt="nc", prob=True, miss=0.2, sparse=0.0, max_t=3, max_l=3, max_s=2, same_dims=False,
@@ -162,7 +194,7 @@ def setup(ctx, rng, kind, tag):
     ds = make_ds(rng, kind)
     for _ in range(20):
         t, l, s = refmodel.common_dims(ds)
-        if len(t) >= 2 and len(l) >= 2:
+        if (len(t) >= 2 and len(l) >= 2) or (kind == "thin" and max(len(t), len(l), len(s)) >= 2):
             break
         ds = make_ds(rng, kind)
     d = os.path.join(ctx.workdir, tag)
@@ -250,7 +282,7 @@ def run_exhaustive(desc, ctx):
     kind = desc["kind"]
     rng = random.Random("C18-%s-%s" % (desc["seed"], kind))
     ds, fresh, opts = setup(ctx, rng, kind, "ex")
-    men = menu(kind)
+    men = menu(kind, ds)
     spec = {"expected": expected_table(fresh, men), "opts": opts}
     shared, _ = fresh()
     n = 0
@@ -276,7 +308,7 @@ def run_random(desc, ctx):
         kind = rng.choice(KINDS)
         if ci % 10 == 0:
             ds, fresh, opts = setup(ctx, rng, kind, "r%d" % ci)
-            men = menu(kind)
+            men = menu(kind, ds)
             spec = {"expected": expected_table(fresh, men), "opts": opts}
             cur_kind = kind
         kind = cur_kind
@@ -359,7 +391,7 @@ def replay(case, ctx):
             for i in refmodel.all_inputs(ds):
                 i["style"] = {}
             ds2, fresh, opts = setup(ctx, random.Random(0), kind, "rp")
-            men = menu(kind)
+            men = menu(kind, ds)
             spec = {"expected": expected_table(fresh, men), "opts": opts}
             run_history(ctx, fresh, spec, tuple(case["seq"]), men, kind, ds)
             ctx.case("replay", True)
